@@ -2268,7 +2268,7 @@ package goatlang
 //@   property C14 C03
 //@   requires s != nil
 //@   allocates elems(string)
-//@   ensures#full result != "[...]"
+//@   ensures#full @C14 result != "[...]"
 //@   callsite#bounded (Value).safeStr: arg_v.t.isSafeStr()
 //@ func (*sliceT).SafeStr loop 0
 //@   invariant s != nil && (cap(p) == 0 || isfresh(arr(p)))
@@ -2279,6 +2279,29 @@ package goatlang
 //@   callsite#bounded (Value).safeStr: arg_v.t.isSafeStr()
 //@ func (*stringMap).SafeStr loop 0
 //@   invariant m != nil && (cap(p) == 0 || isfresh(arr(p)))
+//@ -- printing a map reads it: the ordered key list that range loops walk is not touched
+//@ func (*stringMap).String
+//@   property C10 C14
+//@   requires m != nil
+//@   allocates elems(string)
+//@   ensures#readonly m.keys == old(m.keys) && m.data == old(m.data) && (forall j int :: 0 <= j && j < len(m.keys) ==> m.keys[j] == old(m.keys[j]))
+//@ func (*stringMap).String loop 0
+//@   invariant m != nil && (cap(p) == 0 || isfresh(arr(p)))
+//@ func (*numericMap).String
+//@   property C10 C14
+//@   requires m != nil
+//@   allocates elems(string)
+//@   ensures#readonly m.keys == old(m.keys) && m.data == old(m.data) && (forall j int :: 0 <= j && j < len(m.keys) ==> same(m.keys[j], old(m.keys[j])))
+//@ func (*numericMap).String loop 0
+//@   invariant m != nil && (cap(p) == 0 || isfresh(arr(p)))
+//@ -- a numeric-keyed map literal: the ordered key list holds exactly the literal's keys, in order
+//@ func newNumericMap
+//@   property C10
+//@   requires len(in) % 2 == 0 && (forall j int :: 0 <= j && j < len(in) ==> valid(in[j]))
+//@   modifies *
+//@   ensures#keys is(result.value, *numericMap) && len(as(result.value, *numericMap).keys) == len(in) / 2
+//@ func newNumericMap loop 0
+//@   invariant m != nil && isfresh(m) && m.data != nil && i >= 0 && i % 2 == 0 && len(m.keys) == len(in) / 2 && isfresh(arr(m.keys))
 //@ func (*numericMap).SafeStr
 //@   property C14 C03
 //@   requires m != nil && m.data != nil
@@ -3103,6 +3126,13 @@ package goatlang
 //@   axioms TOKARR
 //@   requires wfC(c) && tok != nil && len(tok.Tokens) >= 3 && tokArr(arr(tok.Tokens)) && (forall j int :: 0 <= j && j < len(tok.Tokens) ==> tok.Tokens[j] != nil)
 //@   callsite#builtinwins (*compiler).compile: builtinMap[tok.Tokens[0].Text] == 0
+//@ -- the instruction a selector compiles to is left unstamped by the case: the stamping loop of
+//@ -- compile gives it the position of the "." node, the one the fused forms report as well
+//@ func (*compiler).compile case "."
+//@   property C02 C20
+//@   axioms TOKARR
+//@   requires wfC(c) && tok != nil && len(tok.Tokens) >= 2 && tokArr(arr(tok.Tokens)) && (forall j int :: 0 <= j && j < len(tok.Tokens) ==> tok.Tokens[j] != nil)
+//@   ensures#unstamped len(res) >= 1 && res[len(res)-1].Pos.IsZero()
 //@ -- a string constant lives in the globals slot keyed by the literal's source text (two spellings
 //@ -- of different byte sequences never share a slot)
 //@ func (*lookup).Set
